@@ -58,6 +58,8 @@ def validateUseOps (useKeyOps : List (String × List String)) (d : Dict) : Excep
 /-- `BaseKey.validate_dict_key(data)` -/
 def validateDictKey (T : KeyTables) (kty : String) (d : Dict) : Except Err Unit := do
   validateKeyRegistry T.paramRegistry d
+  -- `if data["kty"] != cls.key_type: raise ValueError` (the registry above made sure "kty" is present)
+  ensure (d.get? "kty" == some (.str kty)) .valueError
   validateKeyRegistry (T.valueReg kty) d
   validateUseOps T.useKeyOps d
 
